@@ -45,7 +45,7 @@ class Box(object):
 VARS = ['x', 'y', 'z']
 # opt-in program families: named explicitly by a stand-in's extra block, so that the default program streams of
 # every stand-in stay what they were
-OPT_IN = ('defret', 'outerraise', 'delitem', 'compshadow')
+OPT_IN = ('defret', 'outerraise', 'delitem', 'compshadow', 'tryelse')
 
 
 class Gen(object):
@@ -251,6 +251,20 @@ class Gen(object):
         head = '%sexcept ValueError as err:' % ind
         hb = ['%st(type(err).__name__)' % ind2] + hb
       out = ['%stry:' % ind] + body + [head] + hb
+      if self.on('tryelse') and self.rnd.random() < 0.7:
+        # opt-in family: try / except / else / finally whose ELSE clause assigns and then jumps (return, or break /
+        # continue inside a loop): the path body -> else -> jump -> finally must exist in the graph
+        v = self.rnd.choice(VARS)
+        jump = self.rnd.choice(['break', 'continue', 'return %s' % self.expr(vars_)]) if in_loop else 'return %s' % self.expr(vars_)
+        eb = ['%s%s = %s' % (ind2, v, self.expr(vars_))]
+        if self.rnd.random() < 0.6:
+          eb += ['%sif %s:' % (ind2, self.cond(vars_)), '%s  %s' % (ind2, jump)]
+        else:
+          eb += ['%s%s' % (ind2, jump)]
+        v2 = self.rnd.choice(VARS)
+        fin = ['%s%s = %s' % (ind2, v2, self.expr(vars_ + [v])) if self.rnd.random() < 0.5 else '%sprint_(%s)' % (ind2, v),
+               '%sif %s:' % (ind2, self.cond(vars_)), '%s  %s' % (ind2, self.tk())]
+        return out + ['%selse:' % ind] + eb + ['%sfinally:' % ind] + fin, []
       if self.rnd.random() < 0.25:
         fin, _ = self.block(vars_, ind2, depth + 1, False, [0])
         out += ['%sfinally:' % ind] + fin
